@@ -508,6 +508,70 @@ def check_C18(ctx):
                 nontrivial=lambda s, es: True)
     vt.write_evidence(ctx, 'model_checking', ctx_rule(ctx), exhaustive=not ctx.quick())
 
+def check_C14(ctx):
+    import re
+    for cfg, lbl in (('Locks.cfg', 'sack driver'), ('Locks_icmp.cfg', 'icmp/udp drivers')):
+        vt.tlc_design(ctx, 'Locks', cfg=cfg, label='synchronisation skeleton under all interleavings with vector clocks (%s)' % lbl)
+    vt.build_harness(ctx, race=True)
+    scen = vt.tlc_generate(ctx, 'GenWire', 'C14', 0)
+    # concurrent runs / aggregation goroutines / allocators / reverse-DNS fan-out on the ordinary wire
+    reqs = [s for s in vt.tlc_generate(ctx, 'GenRun', 'C15', 0) if s['run']['queries'] >= 2 and s['run']['e2e'] >= 1 and not s['faults']]
+    for i, r in enumerate(reqs[ctx.seed % 3::3][: (12 if ctx.quick() else 60)]):
+        r = json.loads(json.dumps(r)); r['run']['reverse_dns'] = True; r['run']['dns'] = {'*': 'name'}; r['label'] = 'request/' + r['label']
+        scen.append(r)
+    scen += [s for s in vt.tlc_generate(ctx, 'GenRun', 'C11', 0) if s.get('kind') == 'alloc' or '/mix/' in s['id']][: (16 if ctx.quick() else 80)]
+    scen += vt.tlc_generate(ctx, 'GenDoc', 'C18', 12 if ctx.quick() else 100)
+    by = {s['id']: s for s in scen}
+    races = {}
+    rounds = [('2', 1), ('8', 2)] if ctx.quick() else [('1', 1), ('2', 2), ('4', 3), ('8', 4), ('16', 5)]
+    for procs, k in rounds:
+        traces = vt.run_harness(ctx, scen, 'C14-p' + procs, binary=ctx.racebin, env={'GORACE': 'halt_on_error=1', 'GOMAXPROCS': procs})
+        ctx.evaluations += len(scen)
+        for sid, es in vt.read_traces(traces).items():
+            for e in es:
+                if e['event'] != 'Crash':
+                    continue
+                if not e.get('race'):
+                    raise Infra('harness process died in %s without a race report: %s' % (sid, e.get('msg') or e.get('stack', '')[-600:]))
+                st = e['stack']
+                blocks = re.split(r'\n\n', st[st.find('WARNING: DATA RACE'):])
+                tops = []
+                for b in blocks[:2]:
+                    m = re.search(r'\n\s+(github.com/DataDog/datadog-traceroute/\S+?)\(\)\n\s+(/repo/[^\s]+)', '\n' + b)
+                    tops.append((m.group(1).replace('github.com/DataDog/datadog-traceroute/', ''), m.group(2).replace('/repo/', '')) if m else None)
+                if any(t is None for t in tops) or len(tops) < 2:
+                    raise Infra('race report without repository frames on both sides (harness race?) in %s:\n%s' % (sid, st[:1500]))
+                sig = ' <-> '.join(sorted(t[0] for t in tops))
+                races.setdefault(sig, (sid, st, tops))
+    ctx.validated += len(scen)
+    ctx.nontrivial.update(s.get('label') or s['id'] for s in scen)
+    ctx.samples.append({'scenario': scen[0]})
+    known = [k for k in vt.load_known() if k.get('status') == 'known' and k['property'] == 'C14']
+    import fnmatch
+    for sig, (sid, st, tops) in races.items():
+        kf = [k for k in known if fnmatch.fnmatchcase(sig, k['signature'])]
+        if kf:
+            ctx.known.append(('C14', sig, kf[0].get('what', '')))
+            continue
+        # replay: the same scenario alone, up to 3 attempts (the detector needs the accesses to be adjacent in its history)
+        again = False
+        for attempt in range(3):
+            tr = vt.run_harness(ctx, [by[sid]], 'C14-confirm', binary=ctx.racebin, shards=1, env={'GORACE': 'halt_on_error=1'})
+            if any(e['event'] == 'Crash' and e.get('race') for es in vt.read_traces(tr).values() for e in es):
+                again = True
+                break
+        if not again:
+            ctx.notes.append('race %s seen once in %s did not reproduce in 3 re-executions' % (sig, sid))
+        d = vt.save_replay(ctx, 'C14', [by[sid]], [{'event': 'RaceReport', 'signature': sig, 'report': st[:6000]}], 'data race: ' + sig)
+        ctx.violations.append(('C14', sig, sid, d))
+    ctx.extra['rule'] = ('schedule classes enumerated by TLC (GenWire!C14All: for every TTL of every parallel-capable variant the reply is pre-queued before / at the instant of / '
+                         'after the recording of its probe, with duplicates) executed on the real engines and drivers built with -race over the UNSYNCHRONISED wire; plus concurrent '
+                         'requests (3 runs + e2e + reverse DNS + public IP), protocol mixes, concurrent allocator callers and the reverse-DNS fan-out; every class repeated with '
+                         'several GOMAXPROCS values; verdict = a Go race detector report whose two stacks are in the repository; distinct by label')
+    ctx.extra['race_signatures'] = sorted(races.keys())
+    ctx.assumptions.append('the Go race detector is the access-level trace checker (trusted, no false positives); TLA+ supplies the schedule classes and the design-level vector-clock model')
+    vt.write_evidence(ctx, 'exploration', ctx.extra['rule'], exhaustive=False, trusted=['Go race detector', 'TLC'])
+
 def check_C07(ctx):
     cfgs = ['EngineParallelMC.cfg', 'EngineParallelMC_faults.cfg']
     if not ctx.quick():
@@ -516,7 +580,7 @@ def check_C07(ctx):
     vt.write_evidence(ctx, 'model_checking', ctx_rule(ctx), exhaustive=True)
 
 CHECKS = {
-    'C01': check_C01, 'C02': check_C02, 'C03': check_C03, 'C04': check_C04, 'C05': check_C05, 'C06': check_C06, 'C07': check_C07, 'C08': check_C08, 'C09': check_C09, 'C10': check_C10, 'C11': check_C11, 'C12': check_C12, 'C15': check_C15, 'C16': check_C16, 'C17': check_C17, 'C18': check_C18, 'C20': check_C20, 'C19': check_C19,
+    'C01': check_C01, 'C02': check_C02, 'C03': check_C03, 'C04': check_C04, 'C05': check_C05, 'C06': check_C06, 'C07': check_C07, 'C08': check_C08, 'C09': check_C09, 'C10': check_C10, 'C11': check_C11, 'C12': check_C12, 'C14': check_C14, 'C15': check_C15, 'C16': check_C16, 'C17': check_C17, 'C18': check_C18, 'C20': check_C20, 'C19': check_C19,
 }
 
 def replay(ctx, path):
